@@ -1,6 +1,7 @@
 package main
 
 import (
+	"sort"
 	"encoding/json"
 	"fmt"
 	"os"
@@ -16,10 +17,10 @@ import (
 )
 
 func init() {
-	register("C07", "six input streams run through the real generator with panic recovery and a 20 s watchdog: valid G_prog programs incl. "+
+	register("C07", "seven input streams run through the real generator with panic recovery and a 20 s watchdog: valid G_prog programs incl. "+
 		"unusual constructs (untyped inline fragments, interfaces implementing interfaces, adversarial names); G_bad single-fault mutants in all "+
 		"layouts; byte-level mutations (truncate, splice, bit-flip, NUL/BOM/invalid UTF-8) of schema, operation and YAML files; fuzzed text "+
-		"after `# @genqlient`; hand-written unusual-but-valid documents; YAML configurations (blank/null/bogus casing entries, bindings, "+
+		"after `# @genqlient`; hand-written unusual-but-valid documents; valid programs in all eight source layouts; YAML configurations (blank/null/bogus casing entries, bindings, "+
 		"optional) through ReadAndValidateConfig; non-trivial = distinct (stream, mutation kind, outcome class)", runC07)
 }
 
@@ -142,11 +143,11 @@ func runC07(c *Ctx) {
 	for _, cs := range c07Unusual() {
 		c07Run(c, cs)
 	}
-	n := c.N(260, 20000)
+	n := c.N(300, 21000)
 	for i := 0; i < n; i++ {
 		r := c.Rng("c07", i)
 		seed := c.Seed*32452843 + uint64(i)
-		stream := i % 6
+		stream := i % 7
 		opts := gen.Options{Adversarial: r.Chance(1, 3)}
 		if stream != 0 {
 			opts = safeOpts
@@ -164,12 +165,12 @@ func runC07(c *Ctx) {
 			}
 		case 1:
 			cs.Stream = "gbad"
-			class := faultClasses[(i/6)%len(faultClasses)]
+			class := faultClasses[(i/7)%len(faultClasses)]
 			mut, _, ok := injectFault(p.Defs, class, []string{"Query"}, r)
 			if !ok {
 				continue
 			}
-			files, _ := layout(mut, allLayouts[(i/6)%len(allLayouts)], r)
+			files, _ := layout(mut, allLayouts[(i/7)%len(allLayouts)], r)
 			cs.Ops, cs.Kind = files, class
 		case 2:
 			cs.Stream = "bytes-ops"
@@ -192,6 +193,22 @@ func runC07(c *Ctx) {
 			at := r.Intn(len(lines))
 			lines = append(lines[:at], append([]string{sb.String()}, lines[at:]...)...)
 			cs.Ops[k], cs.Kind = strings.Join(lines, "\n"), "fuzzed-directive-line"
+		case 6:
+			// valid programs in every source layout (several .graphql files, Go raw / interpreted literals, literals
+			// nested in expressions, two literals starting on one Go line)
+			lay := allLayouts[(i/7)%len(allLayouts)]
+			defs := p.Defs
+			if (i/7)%2 == 1 {
+				// every other case: pairs of literals on one Go line, the shorter definition first (a generator that
+				// confuses the two literals then reads past the end of the shorter one)
+				lay = layGoSameLine
+				defs = append([]gen.Def{}, p.Defs...)
+				sort.SliceStable(defs, func(a, b int) bool {
+					return strings.Count(defs[a].Comment+defs[a].Text, "\n") < strings.Count(defs[b].Comment+defs[b].Text, "\n")
+				})
+			}
+			files, _ := layout(defs, lay, r)
+			cs.Stream, cs.Kind, cs.Ops = "layouts", "valid:"+string(lay), files
 		case 5:
 			cs.Stream = "yaml"
 			cs.Yaml, cs.Kind, cs.Casing = c07Yaml(r, p, &cs)
